@@ -275,6 +275,10 @@ def stat_key(c, ob):
 
 
 def run(cases, tier='quick', seed=0):
+    import sys
+    # ParallelProcess.__del__ of a worker with an update in flight (known finding K2) raises inside the garbage
+    # collector; the interpreter would print "Exception ignored in ..." for it: recorded by the oracle instead
+    sys.unraisablehook = lambda unraisable: None
     return common.generic_run(__import__('harness.c13', fromlist=['x']), cases, seed, shard=100)
 
 
